@@ -93,3 +93,11 @@ add('C14', 'model-based property testing: generated key recipes (the model) real
     'the import must reproduce fingerprint, components and per-component signature multisets, verify under PGPy, and a copy must export identically.',
     'Trusted: refpgp.grammar/sig. Component order is not asserted.',
     'DESIGN.md 4/C14')
+add('C15', 'model-based stateful testing of operation histories (Hypothesis-generated operation lists interpreted against a model, invariants after every step, delta-debugged replayable histories) plus bounded systematic enumeration of short sequences',
+    'Histories of up to 12 (30 in thorough) operations over two keys - add identity/photo/subkey, re-certify, third-party certify, revoke identity/subkey/key, re-bind, designated '
+    'revoker, remove identity, protect, unlock-and-sign, keep a public twin, copy, export/import - with a clock that produces timestamp ties; after every step all self-signatures, '
+    'bindings (embedded 0x19 for signing subkeys) and revocations verify under PGPy and under the reference on the exported octets, effective flags/preferences/primary/expiry come '
+    'from a latest self-signature, removed identities are absent, revocation lists match, and the fresh public twin mirrors the key. All sequences of length <= 3 (4) over a '
+    '9-operation alphabet are enumerated too.',
+    'Trusted: the model in vpgpy/certmachine.py, refpgp.grammar/sig. Histories start from a key with a text user id (PGPy documents that as required).',
+    'DESIGN.md 4/C15')
